@@ -1205,6 +1205,9 @@ def reads(e):
             name = src(n.func)
             if (name.startswith(PURE_NS) and not name.startswith(IMPURE_NP)) or (isinstance(n.func, ast.Name) and n.func.id in PURE_CALL_NAMES):
                 continue
+            if name.startswith(IMPURE_NP):
+                out.add("<rng>")
+                continue
             if isinstance(n.func, ast.Attribute) and n.func.attr.startswith("get_") and not n.args and not n.keywords and REBOUND[0] is not None and \
                     n.func.attr[4:] not in REBOUND[0] and is_const_attr(n.func.value):
                 skip.add(id(n.func))
@@ -1348,6 +1351,9 @@ def writes_of(stmt):
         elif isinstance(n, ast.Call):
             name = src(n.func)
             if name.startswith(PURE_NS) and not name.startswith(IMPURE_NP):
+                continue
+            if name.startswith(IMPURE_NP):
+                out.add("<rng>")        # a draw advances numpy's generator and nothing else
                 continue
             if isinstance(n.func, ast.Name) and n.func.id in PURE_CALL_NAMES:
                 continue
@@ -3399,6 +3405,86 @@ def rematerialise_loop_tests(fn):
     return k
 
 
+def rematerialise_same_rhs(fn, known):
+    """A NEW local x all of whose definitions have the same side-effect-free right-hand side E (a getter chain on locals):
+    a read of x is a read of E wherever, on every path from a definition to that read, nothing E depends on is rebound and the
+    tree does not grow.  `c = n.get_children(); if c is None: expand(n); c = n.get_children(); use(c)` reads n.get_children()."""
+    from . import cfg as C
+    from . import effects as E
+    params = {a.arg for a in fn.args.args + fn.args.kwonlyargs + fn.args.posonlyargs}
+    cands = {}
+    for n in ast.walk(fn):
+        if isinstance(n, ast.Assign) and len(n.targets) == 1 and isinstance(n.targets[0], ast.Name):
+            cands.setdefault(n.targets[0].id, []).append(n)
+    k = 0
+    g = None
+    for x, defs in sorted(cands.items()):
+        if x in known or x in params or x.startswith("__") or len(defs) < 2:
+            continue
+        stores = [n for n in ast.walk(fn) if isinstance(n, ast.Name) and n.id == x and isinstance(n.ctx, (ast.Store, ast.Del))]
+        if len(stores) != len(defs) or len({src(d.value) for d in defs}) != 1:
+            continue
+        val = defs[0].value
+        if not pure_expr(val) or not simple_arg(val) or isinstance(val, (ast.Constant, ast.Name)) or _mentions_name(val, x):
+            continue
+        if any(isinstance(m, (ast.FunctionDef, ast.Lambda, ast.ListComp, ast.GeneratorExp, ast.SetComp, ast.DictComp)) and _mentions_name(m, x)
+               for m in ast.walk(fn) if m is not fn):
+            continue
+        deps = {n.id for n in ast.walk(val) if isinstance(n, ast.Name)}
+        if g is None:
+            try:
+                g = C.CFG(fn)
+            except Exception:
+                return k
+        try:
+            dnodes = [g.node_of(d) for d in defs]
+        except Exception:
+            continue
+        writers = [n for n in g.nodes if n.ast is not None and n not in dnodes and
+                   ((E.stored_locs(n) & deps) or any(isinstance(c, ast.Call) and isinstance(c.func, ast.Attribute) and c.func.attr in TREE_GROWERS
+                                                     for r in E.node_exprs(n) for c in ast.walk(r)))]
+        loads = [n for n in ast.walk(fn) if isinstance(n, ast.Name) and n.id == x and isinstance(n.ctx, ast.Load)]
+        ok = bool(loads)
+        for u in loads:
+            try:
+                un = g.node_of(u)
+            except Exception:
+                ok = False
+                break
+            # (a statement that reads x and then rebinds a dependency - `n = x[k]` - reads before it writes: it is not a writer for
+            # its own read; a path from it round a loop back to itself must still pass a definition)
+            if un in dnodes or g.paths_avoiding(g.entry, un, dnodes) or any(g.paths_avoiding(wn, un, dnodes) for wn in writers if wn is not un) or \
+                    (un in writers and any(s2 is un or g.paths_avoiding(s2, un, dnodes) for s2 in g.G.successors(un) if s2 not in dnodes)):
+                ok = False
+                break
+        if not ok:
+            continue
+        par = {}
+        for a in ast.walk(fn):
+            for c2 in ast.iter_child_nodes(a):
+                par[id(c2)] = a
+        for u in loads:
+            p1 = par.get(id(u))
+            new = ast.copy_location(copy.deepcopy(val), u)
+            for field, v2 in ast.iter_fields(p1):
+                if v2 is u:
+                    setattr(p1, field, new)
+                elif isinstance(v2, list):
+                    for i2, e2 in enumerate(v2):
+                        if e2 is u:
+                            v2[i2] = new
+        for blk in _blocks(fn):
+            for d in defs:
+                if d in blk:
+                    blk.remove(d)
+                    if not blk:
+                        blk.append(ast.copy_location(ast.Pass(), d))
+        ast.fix_missing_locations(fn)
+        g = None
+        k += 1
+    return k
+
+
 def expand_dict_splats(fn):
     """f(**d) where d is a local bound exactly once to a dict display with constant string keys, never mutated or passed
     elsewhere, and whose value expressions are not affected between the display and the call: the keywords are written out."""
@@ -3969,6 +4055,9 @@ def normalize_tree(file, tree, vocab):
                 fu = forward_unpack_targets(f, known | set(a.arg for a in f.args.args))
                 if fu:
                     log.append("%s.%s: %d unpacked value(s) stored directly" % (cname, f.name, fu))
+                rs = rematerialise_same_rhs(f, known | set(a.arg for a in f.args.args))
+                if rs:
+                    log.append("%s.%s: %d new local(s) with one repeated definition read as that expression" % (cname, f.name, rs))
                 da = demote_attr_accumulators(f, known)
                 if da:
                     log.append("%s.%s: %d local accumulator(s) copied into an attribute at the end read as that attribute" % (cname, f.name, da))
